@@ -73,7 +73,7 @@ func init() {
 		ast.Inspect(cp.Body, func(n ast.Node) bool {
 			switch v := n.(type) {
 			case *ast.AssignStmt:
-				if len(v.Lhs) == 1 && len(v.Rhs) == 1 {
+				if len(v.Lhs) == 1 && len(v.Rhs) == 1 && v.Tok == token.DEFINE {
 					if id, ok := v.Lhs[0].(*ast.Ident); ok {
 						switch id.Name {
 						case "canFastMergeProllyTrees":
